@@ -152,24 +152,21 @@ Theorem C15_clean_header_silent : forall O known dedicated nb ob, o_word O 32 = 
 Proof. exact clean_header_silent. Qed.
 Print Assumptions C15_clean_header_silent.
 
-(* crashes.  The statement "the header checks never raise" is FALSE of the code today (D13): *)
-Definition C15_no_crash_statement : Prop :=
-  forall O known dedicated nb ob inp, exists ds, hdr_check O known dedicated nb ob inp = Ok ds.
+(* no exception escapes from the modelled methods, for any catalog and any library behaviour (D13 fixed in 1f24f5a) *)
+Theorem C15_no_crash : forall O known dedicated nb ob inp, exists ds, hdr_check O known dedicated nb ob inp = Ok ds.
+Proof. exact hdr_check_no_crash. Qed.
+Print Assumptions C15_no_crash.
 
-(* the only exception that can escape is urlparse's ValueError on a Report-Msgid-Bugs-To value without e-mail address *)
-Theorem C15_crash_iff : forall O known dedicated nb ob inp c,
-  hdr_check O known dedicated nb ob inp = Crash c <->
-  c = CValueError /\ exists v, In v (report_values (metadata_of (h_entries inp))) /\ report_raises O v.
-Proof. exact hdr_check_crash_iff. Qed.
-Print Assumptions C15_crash_iff.
-
-Theorem C15_no_crash_outside_D13 : forall O known dedicated nb ob inp, urlparse_total O inp ->
-  exists ds, hdr_check O known dedicated nb ob inp = Ok ds.
-Proof. exact hdr_check_no_crash_guarded. Qed.
-Print Assumptions C15_no_crash_outside_D13.
+(* a Report-Msgid-Bugs-To value without e-mail address on which urlparse raises ValueError is reported as
+   invalid-report-msgid-bugs-to ("could neither be parsed as an e-mail nor as a URL") *)
+Theorem C15_urlparse_failure_reported : forall O known dedicated nb ob inp ds v,
+  hdr_check O known dedicated nb ob inp = Ok ds ->
+  In v (report_values (metadata_of (h_entries inp))) -> report_raises O v -> In (DInvalidReport v) ds.
+Proof. exact urlparse_failure_reported. Qed.
+Print Assumptions C15_urlparse_failure_reported.
 
 (* ------------------------------------------------------------------ *)
-(* examples (non-vacuity): the base header of tools/harness/pogen.py, and the D13 witness *)
+(* examples (non-vacuity): the base header of tools/harness/pogen.py, near-miss values *)
 Definition nl : str := [10].
 Definition ex_translator : str := lit "Jakub Wilk <jwilk@jwilk.net>".
 Definition ex_team : str := lit "Polish <debian-l10n-polish@lists.debian.org>".
@@ -224,14 +221,7 @@ Example C15_ex_near_misses :
   content_type_match ex_oracles (lit "text/plain;charset=X") = Some (false, lit "X").
 Proof. vm_compute. repeat split; reflexivity. Qed.
 
-(* D13: Report-Msgid-Bugs-To: http://[foo  -- urlparse raises ValueError and nothing catches it *)
-Example C15_ex_D13 : ex_check (ex_input false (lit "http://[foo")) = Crash CValueError.
+(* the former D13 witness: urlparse raises ValueError on http://[foo; it is now reported, and the later checks still run *)
+Example C15_ex_urlparse_raises :
+  ex_check (ex_input false (lit "http://[foo")) = Ok [DInvalidReport (lit "http://[foo")].
 Proof. vm_compute. reflexivity. Qed.
-
-Theorem C15_no_crash_refuted : ~ C15_no_crash_statement.
-Proof.
-  intro H.
-  destruct (H ex_oracles header_fields dedicated_fields special_exact_or_sub special_sub_only (ex_input false (lit "http://[foo"))) as (ds & E).
-  change (ex_check (ex_input false (lit "http://[foo")) = Ok ds) in E. rewrite C15_ex_D13 in E. discriminate.
-Qed.
-Print Assumptions C15_no_crash_refuted.
